@@ -1,5 +1,7 @@
 """C03 xdynamic_bitset / view vs std::vector<bool>: explicit-state BFS (E1) to fixpoint for narrow blocks, depth-bounded for wide ones;
-size sweep, allocation faults, held handles / query interleavings (bounded histories), initializer lists of every length (see NOTES.md)."""
+size sweep, allocation faults, held handles / query interleavings (bounded histories), initializer lists of every length, the allocator
+dimension (the whole owning alphabet and the list routes over a default-initialising allocator on dirtied memory) and requests at the top of
+size_type's range / around the allocator's limit (see NOTES.md)."""
 import os
 import vlib
 
@@ -31,6 +33,18 @@ def build_handles():
     return vlib.compile_cxx(HANDLES, "c03hd", std="c++14", opt="-O1", san="asan")
 
 
+LIMITS = os.path.join(HERE, "limits.cpp")
+
+
+def build_dirty():
+    # the same source as build(): -DC03_DIRTY_ALLOC makes the owning world an xdynamic_bitset<B, c03::DirtyAlloc<B>>
+    return vlib.compile_cxx(SRC, "c03da", std="c++14", opt="-O1", san="asan", defines=("C03_DIRTY_ALLOC",))
+
+
+def build_limits():
+    return vlib.compile_cxx(LIMITS, "c03lm", std="c++14", opt="-O1", san="asan")
+
+
 # the handle part executes millions of short histories, each on a fresh world: a small quarantine keeps its resident size at ~100 MB
 HANDLES_ENV = {"ASAN_OPTIONS": vlib.ASAN_ENV + ":quarantine_size_mb=32"}
 BLOCKS = ("u8", "u16", "u32", "u64")
@@ -47,6 +61,25 @@ def plan_handles(tier):
         return [["--block", b, "--kind", k, "--depth", "3"] for k in ("view", "own") for b in reversed(BLOCKS)]
     return ([["--block", b, "--kind", k, "--depth", "4"] for k in ("view", "own") for b in reversed(BLOCKS)] +
             [["--block", b, "--kind", k, "--depth", "3", "--wide"] for k in ("view", "own") for b in reversed(BLOCKS)])
+
+
+def plan_dirty(tier):
+    """owning alphabet over the default-initialising allocator; --fill = the byte allocate() leaves in the memory it hands out"""
+    if tier == "quick":
+        return [["--block", b, "--kind", "owning", "--fill", f] + a
+                for b, a in (("u8", ["--S", "10"]), ("u64", ["--S", "129", "--depth", "3"]), ("u32", ["--S", "65", "--depth", "3"]), ("u16", ["--S", "17", "--depth", "3"]))
+                for f in ("FF", "A5")]
+    return [["--block", b, "--kind", "owning", "--fill", f] + a
+            for b, a in (("u8", ["--S", "10", "--full-gallery"]), ("u8", ["--S", "17", "--depth", "4", "--max-states", "100000"]),
+                         ("u16", ["--S", "17", "--depth", "4", "--max-states", "100000"]),
+                         ("u32", ["--S", "65", "--depth", "4", "--max-states", "100000"]), ("u64", ["--S", "129", "--depth", "4", "--max-states", "100000"]))
+            for f in ("FF", "A5")]
+
+
+def plan_limits(tier):
+    if tier == "quick":
+        return ([["--block", b, "--alloc", a] for b in ("u64", "u32") for a in ("std", "cap3", "throw3")] + [["--block", "u16"], ["--block", "u8"]])
+    return [["--block", b, "--alloc", a, "--all-small", "--wide-windows"] for b in reversed(BLOCKS) for a in ("std", "cap3", "throw3")]
 
 
 def plan(tier):
@@ -82,7 +115,7 @@ def plan(tier):
 
 
 def run(ctx):
-    binary, sw, li, hd = vlib.parallel([build, build_sweep, build_lists, build_handles])
+    binary, sw, li, hd, da, lm = vlib.parallel([build, build_sweep, build_lists, build_handles, build_dirty, build_limits])
     dl = str(int(max(60, ctx.time_left() - 30)))
     jobs = [(lambda a=a: ctx.run_harness(binary, a + ["--deadline", dl], tag="c03")) for a in plan(ctx.tier)]
     nmax = "2200" if ctx.tier == "quick" else "6400"
@@ -90,6 +123,11 @@ def run(ctx):
     # these jobs are queued behind the ones above: their deadline is computed when they start
     jobs += [(lambda a=a: ctx.run_harness(hd, a + ["--deadline", str(int(max(30, ctx.time_left() - 30)))], tag="c03hd", env=HANDLES_ENV)) for a in plan_handles(ctx.tier)]
     jobs += [(lambda a=a: ctx.run_harness(li, a, tag="c03li")) for a in plan_lists(ctx.tier)]
+    # short jobs (2..10 s each on an idle machine) queued behind everything else: on an overloaded machine they start late, and get at least 120 s
+    # (run_harness allows a harness 300 s at least)
+    late = lambda: str(int(max(120, ctx.time_left() - 30)))
+    jobs += [(lambda a=a: ctx.run_harness(da, a + ["--deadline", late()], tag="c03da")) for a in plan_dirty(ctx.tier)]
+    jobs += [(lambda a=a: ctx.run_harness(lm, a + ["--deadline", late()], tag="c03lm", env=HANDLES_ENV)) for a in plan_limits(ctx.tier)]
     vlib.parallel(jobs)
     ctx.rule = ("BFS over raw states (size, block count, every block incl. bits beyond size()) of real xdynamic_bitset / xdynamic_bitset_view objects; "
                 "every operation instance of the alphabet (constructors, assign x3, resize(s[,b]), clear, push/pop_back, set/reset/flip all and per bit, reference and iterator writes, "
@@ -108,9 +146,17 @@ def run(ctx):
                 "BOOL LISTS (lists.cpp): std::initializer_list<bool> of EVERY length 0..136 (thorough 0..200) x content (all 2^L contents for L <= 10 (13); above: 9 structured contents + a walking one and a walking zero at every position; "
                 "thorough: every pair of set bits at lengths w-1, w, w+1, 2w+1 of every block width) x 4 block types x 9 routes (constructor, constructor with allocator, copy-list-initialisation, assign() onto 6 earlier contents): "
                 "all queries, unused-bit invariant, == against push_back-built and set(i)-built bitsets. "
-                "distinct_nontrivial = distinct raw states reached by the BFS parts; evaluations = BFS transitions + history executions of the handle part + list constructions/assignments judged")
+                "ALLOCATOR DIMENSION: harness.cpp built a second time with the owning world over c03::DirtyAlloc (construct(p) without arguments default-initialises, allocate() hands out memory filled with 0xFF / 0xA5): "
+                "the WHOLE owning alphabet (plus the allocator-taking constructors) applied to every reachable state, same oracle and queries: u8 S=10 to fixpoint, u16/u32/u64 to the depth of the owning part, both fill bytes; "
+                "lists.cpp runs its 9 routes over std::allocator and over DirtyAlloc with both fill bytes. "
+                "SIZE LIMITS (limits.cpp): allocator {std::allocator over an operator new that refuses > 16 MiB at once, max_size() = 3 blocks, allocate(n > 3) throws} x 9 initial states x "
+                "{resize(n), resize(n,true), assign(n,b), bitset(n), bitset(n,b), reserve(n)} x n in {block boundaries up to 5w+1 (every size for u8/u16), SIZE_MAX-w-1..SIZE_MAX, 2^63 +-(w+1), max_size() +-(w+1), 2^k-1..2^k+1 for k = 28..62} "
+                "and push_back at every initial state, each followed by a 4-step probe sequence (push_back, resize(SIZE_MAX,true), flip, assign(SIZE_MAX-w+1,true)) on the same object; oracle: exact arithmetic (ceil(n/w) in 128 bits against the allocator's known limit): "
+                "an unsatisfiable request must throw (any type) and leave size/block_count/blocks as they were (assign: a well formed bitset), a satisfiable one must succeed and hold what std::vector<bool> holds, "
+                "never size() over blocks that cannot back it; full query battery after every operation. "
+                "distinct_nontrivial = distinct raw states reached by the BFS parts; evaluations = BFS transitions + history executions of the handle part + list constructions/assignments judged + limit operations judged")
     ctx.stats["distinct_nontrivial"] = ctx.stats.get("states", 0)
-    ctx.stats["evaluations"] = ctx.stats.get("transitions", 0) + ctx.stats.get("handle_history_runs", 0) + ctx.stats.get("list_evaluations", 0)
+    ctx.stats["evaluations"] = ctx.stats.get("transitions", 0) + ctx.stats.get("handle_history_runs", 0) + ctx.stats.get("list_evaluations", 0) + ctx.stats.get("limit_operations_judged", 0)
     ctx.assumptions += [
         "std::vector<bool> and zero-fill shift semantics are the reference",
         "operations with a precondition the statement does not cover are not in the alphabet: pop_back/front/back on empty, set/reset/flip/[] with pos >= size, binary operators on operands of different size, use of a moved-from bitset",
@@ -119,6 +165,10 @@ def run(ctx):
         "held handles: only operations that keep the size are applied while a handle is held (resizing invalidates references and iterators, as for std::vector<bool>); an owning bitset written through a foreign view of its data() is not in the statement and is not enumerated (a second view over the same CALLER memory is)",
         "the handle part is bounded by history length, not run to a fixpoint: what a container may remember between calls is invisible, so two histories are never identified",
         "initializer lists: the length is a compile-time property (one instantiation per length 0..200), the content is enumerated at run time",
+        "allocator dimension: an allocator may leave default-inserted elements uninitialised and hand out memory with any content (the standard's allocator requirements allow both); fill bytes 0xFF and 0xA5 stand for 'any content'",
+        "size limits: WHICH exception an unsatisfiable request throws is not judged (length_error, bad_alloc and anything else are accepted and counted); after a failed assign only well-formedness is required "
+        "(std::vector<bool>::assign gives the basic guarantee), after a failed resize / push_back / reserve / constructor the bitset must be unchanged (std::vector<bool> has no effects there); whether reserve(n) throws, capacity() and max_size() are not judged; "
+        "no huge allocation is ever attempted: the std::allocator runs sit on a replaced global operator new that answers requests above 16 MiB with std::bad_alloc (under ASan the default one aborts the process instead of throwing)",
     ]
 
 
@@ -128,6 +178,12 @@ def replay(ctx, rec):
         return
     if rec["args"] and rec["args"][0] == "--only":
         ctx.run_harness(build_lists(), rec["args"], tag="c03li")
+        return
+    if rec["args"] and rec["args"][0] == "--limit-only":
+        ctx.run_harness(build_limits(), rec["args"], tag="c03lm", env=HANDLES_ENV)
+        return
+    if len(rec["args"]) > 1 and rec["args"][0] == "--replay" and "/dirty" in rec["args"][1]:
+        ctx.run_harness(build_dirty(), rec["args"], tag="c03da")
         return
     if len(rec["args"]) > 1 and rec["args"][0] == "--replay" and "/hold-" in rec["args"][1]:
         ctx.run_harness(build_handles(), rec["args"], tag="c03hd", env=HANDLES_ENV)
